@@ -135,6 +135,7 @@ def u1(ctx):
             obs.append(ctx.bad(fi.qualname, fi.where, "raises DuplicateUidError", "%s never raises DuplicateUidError" % fi.short))
         for r in raises:
             good = False
+            leak = []
             for tnode in [t for t in cfg.nodes if t.kind == "test"]:
                 t = tnode.ast
                 if not (isinstance(t, ast.Compare) and len(t.ops) == 1 and isinstance(t.ops[0], (ast.NotEq, ast.Eq))):
@@ -152,6 +153,18 @@ def u1(ctx):
                                               for o in b_)
                     if is_name and holder:
                         good = True
+                        # ... and the converse: once the holder is known to differ from the target name, the refusal is
+                        # unavoidable - no further condition lets the write through
+                        diff_edges = [m for m, l in tnode.succ if l == want]
+                        if diff_edges and cfg.exit.id in cfg.reachable(diff_edges, follow_exc=False):
+                            leak.append(tnode)
+            if good and leak:
+                obs.append(ctx.bad(fi.qualname, where(fi, leak[0]), "a different holder always refuses",
+                                   "after `%s` says that another resource holds the UID, %s can still return normally: a write that gives a "
+                                   "resource the UID of a different existing resource is accepted under some further condition"
+                                   % (src(leak[0].ast), fi.short)))
+            elif good:
+                obs.append(ctx.ok(fi.qualname, where(fi, r), "a different holder always refuses", "no normal return from the 'different' side"))
             obs.append(ctx.ob(good, fi.qualname, where(fi, r), "DuplicateUidError only if another name holds the uid",
                               "raise requires `<holder> != name` with holder = %s[uid][0]" % REV,
                               "the DuplicateUidError refusal is not conditioned on the holder's name differing from the target name: "
@@ -558,3 +571,21 @@ def u7(ctx):
                           "content type = MIMETYPES.guess_type(name)[0] or the default",
                           "GitStore.iter_with_etag reports `%s` as content type, not MIMETYPES.guess_type(name)" % src(a)))
     return obs
+
+
+@rule("C06", "U8", floor=2, kind="N",
+      desc="the UID that is checked is the UID that is stored: normalized() does not rewrite the text of the object "
+           "(same obligations as C14/V7) - a normalisation applied to what is stored but not to what is checked lets two "
+           "resources carry the same UID")
+def u8(ctx):
+    from .c14 import normalized_obligations
+    return normalized_obligations(ctx)
+
+
+@rule("C06", "U9", floor=2, kind="N",
+      desc="the scan notices every change of a member: its unchanged-file shortcut is keyed by the ETag, and the ETag is a "
+           "hash of the content (the vdir obligations of C02/E3) - an ETag taken from stat() hides an in-place change of the "
+           "UID from the scan")
+def u9(ctx):
+    from .c02 import e3
+    return [o for o in e3(ctx) if "VdirStore" in o.construct]
